@@ -136,6 +136,9 @@ func (t *tokGen) leafScript(n, v int, prepOK bool, execMask uint, attempts int, 
 	for k := 0; k < attempts; k++ {
 		if execMask&(1<<uint(k)) != 0 {
 			s.Exec = append(s.Exec, t.val())
+		} else if k > 0 && strings.HasPrefix(s.Exec[k-1], "!") && t.r.chance(25) {
+			// the SAME error value as the attempt before (a sentinel returned again): still one attempt each
+			s.Exec = append(s.Exec, s.Exec[k-1])
 		} else {
 			s.Exec = append(s.Exec, t.errStrJ(true))
 		}
@@ -323,6 +326,8 @@ func (t *tokGen) itemScript(mask uint, attempts int, fbOK bool, execS string) It
 				v = "x" + "u" + strconv.Itoa(t.err()) // the exec function returns an error Result, nil error
 			}
 			it.Exec = append(it.Exec, v)
+		} else if k > 0 && strings.HasPrefix(it.Exec[k-1], "!") && t.r.chance(25) {
+			it.Exec = append(it.Exec, it.Exec[k-1]) // the SAME error value as the attempt before
 		} else {
 			it.Exec = append(it.Exec, t.errStrJ(true))
 		}
@@ -684,6 +689,14 @@ func injectAt(sc FlowScenario, ev string, mode string, errN int) (FlowScenario, 
 	out.BatchScripts = append([]BatchScript{}, sc.BatchScripts...)
 	n, _ := strconv.Atoi(f[1])
 	v, _ := strconv.Atoi(f[2])
+	if mode != "cancel" {
+		switch errN % 9 {
+		case 3:
+			errN = nilPtrErrN // the injected failure is a typed-nil error value (non-nil as an `error`)
+		case 6:
+			errN = zeroCodeErrN // … the zero value of a scalar error type
+		}
+	}
 	mod := func(s string) string {
 		if mode == "cancel" {
 			if strings.HasSuffix(s, "*") {
